@@ -591,4 +591,98 @@ def c10(report, rng, tier, findings):
         "caching on: covered by correspondence, subject to C05-F1"]
 
 
-HANDLERS = {'C10': c10, 'C16': c16, 'C17': c17, 'C09': c09, 'C03': c03, 'C06': c06, 'C15': c15, 'C18': c18, 'C19': c19}
+# ------------------------------------------------------------------------------------------- C13
+
+C13_FIELDS = ('a', 'b', 's', 'flag', 'items', 't', 'ref')      # constructor parameter order of every generated class
+
+
+def c13(report, rng, tier, findings):
+    n = n_cases(tier, 300, 4000)
+    cases = []
+    for i in range(n):
+        nv = rng.choice((1, 1, 2))
+        cfg = gen.Cfg(n_vars=(nv, nv), n_objs=(2, 5), depth=1, subclasses=0.7, empty_domain=0.0, falsy=0.3,
+                      int_range=(0, 2), select_all=1.0)
+        base = gen.gen_case(rng, cfg, f'c{i}')
+        # make domains mixed-type: every variable ranges over a random class, domain = all objects
+        all_objs = [('o', j) for j, _, _ in base['objs']]
+        classes = [c for c, _ in base['classes']]
+        base['vars'] = [(vid, rng.choice(classes), rng.sample(all_objs, len(all_objs))) for vid, _, _ in base['vars']]
+        extra = base['cond'] if rng.random() < 0.4 else []
+        pform, eq_by_var, nested = {}, {}, False
+        ovars = list(base['vars'])
+        for vid, cls, raw in base['vars']:
+            if rng.random() < 0.85:
+                k = rng.randint(0, 2)
+                fields = rng.sample(['a', 'b', 'ref'], k)
+                style = rng.choice(('kw', 'pos'))
+                spec = {'pos': [], 'kw': []}
+                eqs = []
+                if style == 'pos' and fields:
+                    # positional values bind the leading constructor parameters, in order
+                    fields = [f for f in C13_FIELDS[:rng.randint(1, 2)]]
+                for f in fields:
+                    if f == 'ref':
+                        r = rng.random()
+                        if r < 0.4 and vid > 0:
+                            val, eq = ('var', vid - 1), ('cmp', 'eq', ('attr', 'ref', ('var', vid)), ('var', vid - 1))
+                        elif r < 0.75:
+                            o = rng.choice(all_objs)
+                            val, eq = ('lit', o), ('cmp', 'eq', ('attr', 'ref', ('var', vid)), ('lit', o))
+                        else:
+                            z = 50 + vid
+                            zc = rng.choice(classes)
+                            lit = ('i', rng.randint(0, 2))
+                            val = ('nested', zc, list(all_objs), [('a', lit)])
+                            eq = ('and', ('cmp', 'eq', ('attr', 'ref', ('var', vid)), ('var', z)),
+                                  ('cmp', 'eq', ('attr', 'a', ('var', z)), ('lit', lit)))
+                            ovars.append((z, zc, list(all_objs)))
+                            nested = True
+                    else:
+                        lit = rng.choice([('i', rng.randint(0, 2))] * 3 + gen.FALSY) if f == 'b' else ('i', rng.randint(0, 2))
+                        val, eq = ('lit', lit), ('cmp', 'eq', ('attr', f, ('var', vid)), ('lit', lit))
+                    (spec['pos'] if style == 'pos' else spec['kw']).append(val if style == 'pos' else (f, val))
+                    eqs.append(eq)
+                pform[vid] = spec
+                if eqs:
+                    eq_by_var[vid] = ('sub', (('var', vid),)) + tuple(eqs)
+        # entity()/set_of() put the quantified selected expressions first, in selection order
+        eq_conds = [eq_by_var[t[1]] for t in base['sel'] if t[0] == 'var' and t[1] in eq_by_var]
+        explicit = dict(base)
+        explicit['cond'] = (eq_conds + list(extra)) or None
+        explicit['vars'] = ovars
+        case = dict(base)
+        case['cond'] = list(extra) or None
+        case['pform'] = pform
+        case['explicit'] = explicit
+        case['nested'] = nested
+        cases.append(case)
+    report.rule = ("queries whose variables are declared in predicate form T(From(d), ...) over MIXED-TYPE domains of a generated "
+                   "hierarchy (the variable's class is a random class; subclasses must be kept, other classes dropped), with 0-2 "
+                   "fields given by keyword or positionally after the domain, values: constants (falsy ones included), a variable "
+                   "declared earlier, a nested predicate-form term; compared with the explicit query over let(T, d) with one equality "
+                   "per field (rows vs oracle, constructed tree vs the model for non-nested values); non-trivial = at least one field "
+                   "given and the domain contains objects that are not instances of the variable's class")
+
+    def nontriv(case, res):
+        has_field = any(sp['pos'] or sp['kw'] for sp in case['pform'].values())
+        filtered = any(res['dom_sizes'][v] < res['raw_sizes'][v] for v in res['dom_sizes'])
+        return has_field and filtered
+
+    class J(QueryJudge):
+        def __call__(self, case, res, drv):
+            self.check_tree = not case['nested']
+            super().__call__(case, res, drv)
+    judge = J(report, findings, 'C13', nontrivial=nontriv, check_tree=True)
+    for c in cases:
+        report.count('nested' if c['nested'] else 'flat')
+        for sp in c['pform'].values():
+            report.count('positional_values', len(sp['pos']))
+            report.count('keyword_values', len(sp['kw']))
+    run_query_cases(report, cases, {'caching': (False, True), 'evals': 1}, judge)
+    return ['EqlModel.Props.C13'], [
+        "nested predicate-form values (sub-queries as operands): rows compared with the flattened explicit query, no theorem",
+        "constructor parameter order is read with inspect.signature (trusted)"]
+
+
+HANDLERS = {'C13': c13, 'C10': c10, 'C16': c16, 'C17': c17, 'C09': c09, 'C03': c03, 'C06': c06, 'C15': c15, 'C18': c18, 'C19': c19}
